@@ -31,7 +31,9 @@ warnings.filterwarnings('ignore')
 
 def translate():
     from translate import padding as TPAD
-    return {'Gen/FiniteDiff.v': TFD.translate(), 'Gen/Padding.v': TPAD.translate()}
+    from translate import adjoints as TADJ
+    return {'Gen/FiniteDiff.v': TFD.translate(), 'Gen/Padding.v': TPAD.translate(),
+            'Gen/Adjoints.v': TADJ.translate()}
 
 
 # ===================================================================== spaces
